@@ -180,11 +180,13 @@ def ex_e2e(ctx, case, test="BS", num_sim=4, seed=1, layout="C", inject=False, sc
         ctx.mon("history:evaluated-rescaled-evaluated", 1)
         tags["evaluated_under_another_scale_before"] = True
     kw = {"num_simulations": num_sim, "seed": seed}
-    if inject and test == "BR" and n_active >= 2:
-        # injected uniform numbers (documented injection point): several numbers may land in one bin, i.e. simulated bins holding >= 2 events
+    if inject and n_active >= 2:
+        # injected uniform numbers (documented injection point of the Brier AND the binary tests): several numbers may land in one bin, i.e.
+        # simulated bins holding >= 2 events - the scores depend on which bins are active, not on how many events they hold
         u = numpy.random.default_rng([seed, 16]).uniform(0, 1, (num_sim, n_active))
         u[:, 1] = u[:, 0]
         kw["random_numbers"] = u
+        tags["injected_collisions"] = True
     with simlog.RngLog(budget=400000) as rl, simlog.SimLog(mod, "brier" if test == "BR" else "binary", rl) as sl:
         ok, res, tb = ctx.call(fn, fore, cat, **kw)
     ctx.count(1)
@@ -212,7 +214,20 @@ def ex_e2e(ctx, case, test="BS", num_sim=4, seed=1, layout="C", inject=False, sc
     for j, (entry, val) in enumerate(zip(sl.calls, td)):
         if "result" not in entry:
             continue
-        simw = entry["result"].reshape(shape)
+        simw = numpy.asarray(entry["result"])
+        if simw.size != int(numpy.prod(shape)):
+            # the simulator worked on the positive-rate bins only: read its catalog back onto the full table (zero-rate bins hold no simulated
+            # event); any other size cannot be read as a catalog on this forecast's bins
+            pos = numpy.asarray(lam, dtype=float).ravel() > 0
+            if simw.size != int(pos.sum()):
+                ctx.violate("simulated catalog has neither one entry per bin nor one per positive-rate bin", rc, observed=int(simw.size),
+                            expected=[int(numpy.prod(shape)), int(pos.sum())], tags=tags)
+                break
+            full = numpy.zeros(pos.shape, dtype=simw.dtype)
+            full[pos] = simw.ravel()
+            simw = full
+            ctx.add("simulated_catalogs_given_on_positive_rate_bins_only")
+        simw = simw.reshape(shape)
         if test == "BR":
             rj = gridcases.brier(lam, simw)
             good = close(float(val), rj, rel=1e-9, abs_=1e-12)
